@@ -132,7 +132,13 @@ type Origins struct {
 	// stores per (struct type, field index) through non-local bases
 	fieldStores map[fieldKey][]*ssa.Store
 	built       bool
+	// PhiChoice, when set, replaces a control-flow join by the edge value it returns (non-nil): terms resolved
+	// along one path. Use on a private Origins and call ResetMemo between paths.
+	PhiChoice func(*ssa.Phi) ssa.Value
 }
+
+// ResetMemo forgets memoised terms (needed when PhiChoice changes).
+func (o *Origins) ResetMemo() { o.memo = map[ssa.Value]*Term{} }
 
 type localKey struct {
 	a     *ssa.Alloc
@@ -319,6 +325,13 @@ func (o *Origins) compute(v ssa.Value, depth int) *Term {
 	case *ssa.TypeAssert:
 		return &Term{Op: "call", Name: "assert:" + typeName(x.AssertedType), Args: []*Term{o.of(x.X, depth+1)}}
 	case *ssa.Phi:
+		if o.PhiChoice != nil && !o.inprog[x] {
+			if e := o.PhiChoice(x); e != nil && e != v {
+				o.inprog[x] = true
+				defer delete(o.inprog, x)
+				return o.of(e, depth+1)
+			}
+		}
 		if len(x.Edges) > 8 {
 			return opaque("phi-wide")
 		}
